@@ -335,6 +335,23 @@ def whole_buffer_rule(repo: Repo, rep: Report, rid: str) -> None:
               "reach what lies behind the value's own bytes in the caller's buffer", fi.loc())
 
 
+def pointer_new_rule(repo: Repo, rep: Report, rid: str) -> None:
+    rep.rule(rid, "a pointer object holds the address it was given: Pointer.__new__ folded over 4 widths x 8 addresses (in range, at and beyond 2**width, "
+                  "negative, beyond 2**64) keeps the address, the stream and the context unchanged and caches no target - arithmetic on a pointer is "
+                  "integer arithmetic on the address, the result is not wrapped to the pointer's width")
+    from ..folds import fold_pointer_new
+
+    fi = repo.func("types/pointer.py", "Pointer.__new__")
+    fold = fold_pointer_new(repo)
+    if fold is None:
+        rep.ok(rid, f"{fi.key}:fold", "not foldable with the evaluator's whitelist", fi.loc(), nontrivial=False)
+        return
+    bad = fold["bad"]
+    rep.check(not bad, rid, f"{fi.key}:fold", f"{fold['cases']} (width, address) cases keep the address",
+              (f"Pointer.__new__ of a {bad[0][0]}-byte pointer type given the address {bad[0][1]:#x}: {bad[0][2]}, expected {bad[0][3]}: the pointer then dereferences "
+               "another offset than the one computed") if bad else "", fi.loc())
+
+
 def run(repo: Repo, rep: Report, tier: str) -> None:
     from .compiled import compiled_fold_rule
 
@@ -355,3 +372,4 @@ def run(repo: Repo, rep: Report, tier: str) -> None:
 
     offsets_before_compile_rule(repo, rep, "C16.R10")
     whole_buffer_rule(repo, rep, "C16.R11")
+    pointer_new_rule(repo, rep, "C16.R12")
